@@ -412,8 +412,10 @@ def run(ctx):
         for e in (["&", a, b], ["&", b, a], ["&", a, a], ["&", ["&", a, b], c], ["&", a, ["&", b, c]],
                   [">>", [">>", a, b], c], [">>", a, [">>", b, c]]):
             cases.append({"stream": "laws", "expr": e})
+    corpus_progs = [c for c in cases if "stmts" in c]
+    cases = [c for c in cases if "stmts" not in c]
     check_cases(ctx, cases)
-    progs = [{"stream": "program", "stmts": gen_prog(g, 6)} for _ in range(ctx.n(250, 3000))]
+    progs = corpus_progs + [{"stream": "program", "stmts": gen_prog(g, 6)} for _ in range(ctx.n(250, 3000))]
     check_progs(ctx, progs)
 
 
